@@ -166,11 +166,30 @@ package volatility
 //@ step[C01] "bands" forall k :: 0 <= k && k < len(result) ==> upperBands[k] == smaS(closings, p.BollingerBands.Period)[k] + 2 * stdS(closings, p.BollingerBands.Period)[k] && lowerBands[k] == smaS(closings, p.BollingerBands.Period)[k] - 2 * stdS(closings, p.BollingerBands.Period)[k]
 //@ ensures[C01] "documented" forall k :: 0 <= k && k < len(result) ==> result[k] == (closings[k + p.BollingerBands.Period - 1] - (smaS(closings, p.BollingerBands.Period)[k] - 2 * stdS(closings, p.BollingerBands.Period)[k])) / ((smaS(closings, p.BollingerBands.Period)[k] + 2 * stdS(closings, p.BollingerBands.Period)[k]) - (smaS(closings, p.BollingerBands.Period)[k] - 2 * stdS(closings, p.BollingerBands.Period)[k]))
 
+// PL = Min(period, (high + MLS(period, x, high))), PH = Max(period, (low + MLS(period, x, low))), x = 1, 2, 3, ...,
+// PO = 100 * (Closing - PL) / (PH - PL), all at the same bar
+//@ stream countS(from real)[j] = from + j
+//@ stream projS(a stream, P int)[j] = a[j + P - 1] + mlsMS(countS(1), a, P)[j]
+//@ stream poS(h stream, l stream, c stream, P int, Q int)[k] = (c[k + P + Q - 2] - wminS(projS(h, P), k, k + Q)) / (wmaxS(projS(l, P), k, k + Q) - wminS(projS(h, P), k, k + Q)) * 100
 //@ func Po.Compute
 //@ requires p.mls.Sum.Period >= 1 && p.min.Period >= 1 && p.max.Period == p.min.Period && consumed(highs) == 0 && consumed(lows) == 0 && consumed(closings) == 0 && len(highs) == len(lows) && len(highs) == len(closings)
 //@ ensures[C02] len(result) == max(0, len(highs) - (p.IdlePeriod()))
 //@ ensures[C03] consumed(highs) == len(highs) && consumed(lows) == len(lows) && consumed(closings) == len(closings) && closed(result)
 //@ ensures[C04] forall kk :: 0 <= kk && kk < len(result) ==> hor(result, kk) <= max(hor(highs, kk + (p.IdlePeriod())), max(hor(lows, kk + (p.IdlePeriod())), hor(closings, kk + (p.IdlePeriod()))))
+//@ step[C01] "x" forall j :: 0 <= j && j < len(highs) ==> xSplice[0][j] == countS(1)[j] && xSplice[1][j] == countS(1)[j]
+//@ use psum_cong(xSplice[0], countS(1), _)
+//@ use psum_cong(xSplice[1], countS(1), _)
+//@ use psum_cong(sqS(xSplice[0]), sqS(countS(1)), _)
+//@ use psum_cong(sqS(xSplice[1]), sqS(countS(1)), _)
+//@ use psum_cong(highsSplice[0], highs, _)
+//@ use psum_cong(lowsSplice[0], lows, _)
+//@ use psum_cong(mulS(xSplice[0], highsSplice[0]), mulS(countS(1), highs), _)
+//@ use psum_cong(mulS(xSplice[1], lowsSplice[0]), mulS(countS(1), lows), _)
+//@ step[C01] "slopes" forall j :: 0 <= j && j < len(plM) ==> plM[j] == mlsMS(countS(1), highs, p.mls.Sum.Period)[j] && phM[j] == mlsMS(countS(1), lows, p.mls.Sum.Period)[j]
+//@ step[C01] "projections" forall j :: 0 <= j && j < len(res(Add, 0)) ==> res(Add, 0)[j] == projS(highs, p.mls.Sum.Period)[j] && res(Add, 1)[j] == projS(lows, p.mls.Sum.Period)[j]
+//@ use wmin_cong(res(Add, 0), projS(highs, p.mls.Sum.Period), _, _)
+//@ use wmax_cong(res(Add, 1), projS(lows, p.mls.Sum.Period), _, _)
+//@ ensures[C01] "documented" forall k :: 0 <= k && k < len(result) ==> result[k] == poS(highs, lows, closings, p.mls.Sum.Period, p.min.Period)[k]
 
 // BasicUpperBands = (High + Low) / 2 + Multiplier * ATR, BasicLowerBands = (High + Low) / 2 - Multiplier * ATR,
 // FinalUpperBands / FinalLowerBands / SuperTrend / UpTrend by the documented recursion (spec functions stFU, stFL, stUP)
